@@ -125,12 +125,102 @@ func loadReal(limitPerBlock int) (items []realItem, notes []string) {
 	return items, notes
 }
 
+// realBlockParts: the four children of every real block (block#11ef55aa info:^BlockInfo value_flow:^ValueFlow
+// state_update:^(MERKLE_UPDATE ShardState) extra:^BlockExtra) and the block itself, decoded by the hand-written
+// decoders with flag-dependent layout — compared with their models (`decodeCustom`, the HashmapAug and BinTree
+// decoders).
+var realBlockParts = []struct {
+	Ref  int // -1: the block root
+	Type string
+}{{0, "tlb.BlockInfo"}, {1, "tlb.ValueFlow"}, {2, "tlb.MerkleUpdate[tlb.ShardState]"}, {3, "tlb.BlockExtra"}, {-1, "tlb.Block"}}
+
+func genRealBlocks(g *h.G) {
+	for _, fn := range blockFiles() {
+		data, err := os.ReadFile(fn)
+		if err != nil {
+			continue
+		}
+		cells, err := boc.DeserializeBoc(data)
+		if err != nil || len(cells) == 0 {
+			continue
+		}
+		root := cells[0]
+		for _, part := range realBlockParts {
+			tt, ok := tlbByN[part.Type]
+			if !ok || (tt.Class != "model" && tt.Class != "partial" && tt.Class != "decode") {
+				g.Count("real_block_part_without_model:" + part.Type)
+				continue
+			}
+			c := root
+			if part.Ref >= 0 {
+				if part.Ref >= len(root.Refs()) {
+					continue
+				}
+				c = root.Refs()[part.Ref]
+			}
+			tbl := tlbx.CellText(c)
+			limit := g.Scale(400000, 0)
+			if limit > 0 && len(tbl) > limit {
+				g.Count("real_block_part_skipped_too_large:" + part.Type)
+				continue
+			}
+			if _, err := unmarshalInto(c, tt.T); err != nil {
+				g.Count("real_block_part_go_decode_err:" + part.Type)
+			}
+			g.Emit("tlb.dec", tt.Name, tt.Ty, tt.Env, tbl)
+			for _, m := range flagVariants(part.Type, c) {
+				g.Emit("tlb.dec", tt.Name, tt.Ty, tt.Env, tlbx.CellText(m))
+				g.Count("real_block_part_flag_variants:" + part.Type)
+			}
+			g.Count("real_block_part_compared_with_model:" + part.Type)
+			g.NonTrivial("realblock/" + part.Type + "/" + tbl[:minInt(len(tbl), 64)])
+		}
+	}
+}
+
+// flagVariants: the real cell with each of the bits that steer the flag-dependent layout flipped (BlockInfo:
+// not_master … vert_seqno_incr and the 8 flags bits; ValueFlow: the other version's magic), and with the last
+// reference dropped — every branch of the hand-written decoders, most of them ending in an error.
+func flagVariants(typ string, c *boc.Cell) []*boc.Cell {
+	row := h.RowOf(c)
+	refs := c.Refs()
+	var out []*boc.Cell
+	mk := func(data []byte, rs []*boc.Cell) {
+		out = append(out, boc.VerifNewCell(boc.OrdinaryCell, 0, data, row.BitLen, rs))
+	}
+	switch typ {
+	case "tlb.BlockInfo":
+		for i := 64; i < 80 && i < row.BitLen; i++ {
+			d := append([]byte{}, row.Data...)
+			d[i/8] ^= 1 << uint(7-i%8)
+			mk(d, refs)
+		}
+	case "tlb.ValueFlow":
+		if row.BitLen >= 32 {
+			d := append([]byte{}, row.Data...)
+			other := []byte{0x3e, 0xbf, 0x98, 0xb7}
+			if d[0] == 0x3e {
+				other = []byte{0xb8, 0xe4, 0x8d, 0xfb}
+			}
+			copy(d, other)
+			mk(d, refs)
+		}
+	default:
+		return nil
+	}
+	if len(refs) > 0 {
+		mk(append([]byte{}, row.Data...), refs[:len(refs)-1])
+	}
+	return out
+}
+
 var realTypes = map[string]string{"tx": "tlb.Transaction", "msg": "tlb.Message", "stateinit": "tlb.StateInit"}
 
 // genReal emits, for every real record: the direct re-decode / re-encode oracle, and (when the record stays inside
 // the model: no non-empty dictionary) the decode line compared with the Lean model. Distribution: how many records
 // reproduce their source hash, how many do not (non-canonical source encoding), how many cannot be re-encoded.
 func genReal(g *h.G) {
+	genRealBlocks(g)
 	items, notes := loadReal(g.Scale(60, 0))
 	for _, n := range notes {
 		g.Count("real_note:" + n)
